@@ -101,10 +101,15 @@ Body == LET c   == input[off]
             tk0 == IF c \in Enders THEN <<>> ELSE tok
         IN
    CASE c \in {"Q", "'"} ->
-          IF tk0 # <<>> THEN Err("TokenizerError")
+          \* a quoted NAME may follow a table or sheet scope, or the colon of a span, inside an operand (Table::'a-b', total:'a-b'):
+          \* it is taken into the operand
+          LET scoped == c = "'" /\ Len(tk0) >= 1 /\ tk0[Len(tk0)] = ":" IN
+          IF tk0 # <<>> /\ ~scoped THEN Err("TokenizerError")
           ELSE LET e == IF c = "Q" THEN (IF Bug = "SplitQuoted" THEN DQEndBug(off + 1) ELSE DQEnd(off + 1))
                         ELSE SQEnd(off) IN
                IF e = 0 THEN Err("TokenizerError")
+               ELSE IF scoped THEN /\ tok' = tk0 \o SubSeq(input, off, e) /\ items' = it0
+                                   /\ off' = e + 1 /\ UNCHANGED <<input, stack, status>>
                ELSE /\ items' = Append(it0, Item(SubSeq(input, off, e), "OPERAND", "q")) /\ tok' = tk0
                     /\ off' = e + 1 /\ UNCHANGED <<input, stack, status>>
      [] c = "#" ->
